@@ -177,7 +177,9 @@ pub trait View: Sized {
     spec fn accepts(s: Self::S, x: T) -> bool;           // stated input domain (and counter fuel)
 
     fn update(&mut self, val: T)
-        requires old(self).inv(), Self::accepts(old(self).abs(), val),
+        requires
+            old(self).inv(),
+            Self::accepts(old(self).abs(), val),   // stated input domain (a separate line: a failure here is a domain question, not a panic)
         ensures final(self).inv(), final(self).abs() == Self::step(old(self).abs(), val);
     fn last(&self) -> (r: Option<T>)
         requires self.inv(),
